@@ -1,5 +1,5 @@
 CONSTANT AsCodedReinit = FALSE
-CONSTANT MolSlots = TRUE
+CONSTANT MolSlots = FALSE
 CONSTANT MaxCells = 8
 CONSTANT Acts = {"Combine", "MkPart", "MkMol", "PartFilter"}
 SPECIFICATION Spec
